@@ -159,7 +159,53 @@ Parse(w, c) ==
     ELSE LET b == Build([n |-> w.n, leaf |-> w.leaf, ids |-> c.newids, used |-> 0, last |-> 0], c.dump)
          IN Ok([n |-> [b.n EXCEPT ![c.newids[1]].held = 1], leaf |-> b.leaf])
 
-WorldOps == {"wleaf", "wset", "obs", "ser", "eq", "ptrget", "visit", "len", "asort", "parse"}
+\* ---- json_patch_apply in place with ONE copying operation: add / replace (a copy of the patch's value) or copy (a copy of the
+\*      value at `from`) placed at `path` as RFC 6902 says - member added or replaced in place, array element inserted ("-": appended)
+\*      or replaced; the new subtree consists of fresh nodes (ids c.newids in document order, owned by the document), a replaced
+\*      value is released (destroyed unless someone else holds it); a failing operation changes nothing
+FrontOf(p) == SubSeq(p, 1, Len(p) - 1)
+Place(n0, par, tk, x, mode) ==
+    LET nd == n0[par]
+        Bad == [ok |-> FALSE, n |-> n0, rel |-> 0]
+    IN IF nd.kind = "o"
+       THEN LET k == R!TokKey(tk)  p == R!KeyPos(nd, k) IN
+            IF p = 0 THEN (IF mode = "replace" THEN Bad
+                           ELSE [ok |-> TRUE, n |-> [n0 EXCEPT ![par].keys = Append(@, k), ![par].kids = Append(@, x)], rel |-> 0])
+            ELSE [ok |-> TRUE, n |-> [n0 EXCEPT ![par].kids[p] = x], rel |-> nd.kids[p]]
+       ELSE IF nd.kind = "a"
+       THEN (IF tk.t = "-" THEN (IF mode = "replace" THEN Bad ELSE [ok |-> TRUE, n |-> [n0 EXCEPT ![par].kids = Append(@, x)], rel |-> 0])
+             ELSE IF tk.t = "i"
+             THEN (IF mode = "replace"
+                   THEN (IF tk.v < Len(nd.kids) THEN [ok |-> TRUE, n |-> [n0 EXCEPT ![par].kids[tk.v + 1] = x], rel |-> nd.kids[tk.v + 1]] ELSE Bad)
+                   ELSE (IF tk.v <= Len(nd.kids)
+                         THEN [ok |-> TRUE, n |-> [n0 EXCEPT ![par].kids = SubSeq(nd.kids, 1, tk.v) \o <<x>> \o SubSeq(nd.kids, tk.v + 1, Len(nd.kids))], rel |-> 0]
+                         ELSE Bad))
+             ELSE Bad)
+       ELSE Bad
+SlotAfter(n1, par, tk) == LET nd == n1[par] IN
+                          IF nd.kind = "o" THEN R!KeyPos(nd, R!TokKey(tk)) ELSE IF tk.t = "-" THEN Len(nd.kids) ELSE tk.v + 1
+WPatch(w, c) ==
+    IF ~Held(w, c.a) \/ Len(c.path) = 0 THEN No(w)
+    ELSE LET par == R!Walk(w, c.a, FrontOf(c.path))
+             tk == c.path[Len(c.path)]
+             mode == IF c.pop = "replace" THEN "replace" ELSE "add"
+             fromNode == IF c.pop = "copy" THEN R!Walk(w, c.a, c.from) ELSE 0
+             Refused == IF c.ret = -1 /\ c.dead = <<>> /\ c.fired = <<>> /\ c.newids = <<>> THEN Ok(w) ELSE No(w)
+             \* (json_patch copies with the default shallow copy, which refuses nodes that carry foreign user data)
+             Uncopyable == c.pop = "copy" /\ fromNode > 0 /\ \E x \in R!Reach(w, fromNode) : w.n[x].ud # 0
+         IN IF par <= 0 \/ fromNode = -1 \/ Uncopyable THEN Refused
+            ELSE LET srcv == IF c.pop = "copy" THEN ValueOf(w, fromNode) ELSE c.val       \* (read before anything is released)
+                     pl == Place(w.n, par, tk, 0, mode)                                  \* the slot, empty for the moment
+                 IN IF ~pl.ok THEN Refused
+                    ELSE LET acc == R!Rel([n |-> pl.n, dead |-> {}, fired |-> {}], pl.rel)   \* a replaced value is released first
+                         IN IF Len(c.newids) # DumpNodes(srcv) \/ ~KeysKnown(srcv) \/ (\E x \in 1..Len(c.newids) : c.newids[x] \in DOMAIN acc.n) THEN No(w)
+                            ELSE LET b == Build([n |-> acc.n, leaf |-> [x \in {y \in DOMAIN w.leaf : y \in DOMAIN acc.n} |-> w.leaf[x]],
+                                                 ids |-> c.newids, used |-> 0, last |-> 0], srcv)
+                                     n2 == [b.n EXCEPT ![par].kids[SlotAfter(b.n, par, tk)] = b.last]
+                                 IN IF c.ret = 0 /\ R!SetOf(c.dead) = acc.dead /\ R!SetOf(c.fired) = acc.fired
+                                    THEN Ok(Prune([n |-> n2, leaf |-> b.leaf])) ELSE No(w)
+
+WorldOps == {"wleaf", "wset", "obs", "ser", "eq", "ptrget", "visit", "len", "asort", "parse", "wpatch"}
 WorldStep(w, c) ==
     CASE c.op \in {"wleaf", "wset"} -> SetLeaf(w, c)
       [] c.op = "obs" -> Obs(w, c)
@@ -170,6 +216,7 @@ WorldStep(w, c) ==
       [] c.op = "len" -> Len_(w, c)
       [] c.op = "asort" -> ASort(w, c)
       [] c.op = "parse" -> Parse(w, c)
+      [] c.op = "wpatch" -> WPatch(w, c)
       [] OTHER -> Structural(w, c)
 
 \* ---- what holds in every state of the world
